@@ -4,6 +4,7 @@ Implementations of IOutput
 
 import logging
 import os
+import pickle
 from datetime import datetime
 
 import numpy as np
@@ -295,7 +296,13 @@ class Output(IOutput, Loggable):
                 self._total_mem / 1048576,
             )
             self._mem_counter += 1
-            np.save(fn, data.magnitude)
+            magn = data.magnitude
+            if np.ma.isMaskedArray(magn):
+                # np.save can't store masked arrays; np.load reads the pickle
+                with open(fn, "wb") as file:
+                    pickle.dump(magn, file)
+            else:
+                np.save(fn, magn)
             return fn
 
         self._total_mem += data_size
